@@ -447,6 +447,100 @@ def run(chk):
     # "whatever headers it sends": X-Forwarded-For is found under any capitalisation only because header names are matched case-insensitively
     c02.header_table(chk, a, "A")
     address_identity(chk, a)
+    list_file(chk, a)
     dispatcher(chk, a)
     progs = {"A": a, "D": chk.use(core.load("D", fresh=(chk.tier == "thorough"))), "B": chk.use(core.load("B", fresh=(chk.tier == "thorough")))}
     block_mode(chk, progs)
+
+
+LINES = r"str>?::lines$|core::str::<impl str>::(lines|split|split_terminator|split_inclusive)$"
+# what a filter on the lines of the list file may look at without being able to drop an address: emptiness and a comment marker
+BENIGN_TEST = r"str>?::(is_empty|trim|trim_start|trim_end|starts_with|len)$|core::str::<impl str>::(is_empty|trim|trim_start|trim_end|starts_with|len)$|::deref$|::as_str$|::as_ref$|::borrow$"
+
+
+def _benign_filter(prog, clo):
+    """A filter predicate that can only drop blank lines and comment lines: its result is built from is_empty / trim / starts_with(<literal>) of
+    the line and nothing else."""
+    if not (isinstance(clo, tuple) and clo and clo[0] == "closure" and clo[1] in prog.bodies):
+        return False
+    cb = prog.bodies[clo[1]]
+    if prog.all_closures_of(cb.path):
+        return False
+    for blk, t in cb.calls():
+        names = core.callee_names(t)
+        if not any(core.re.search(BENIGN_TEST, n_) for n_ in names):
+            return False
+        if any(n_.endswith("starts_with") for n_ in names):
+            pat = describe(prog, cb, t["args"][1]) if len(t["args"]) > 1 else None
+            lit = pat[1] if isinstance(pat, tuple) and pat and pat[0] == "lit" else None
+            if lit not in (35, 59, "#", ";", "//"):
+                return False
+    return True
+
+
+def list_file(chk, prog):
+    """R6.list_file: the enforced list is the whole blacklist file.  (a) load_list_file returns one entry per line of the file: the value it
+    returns for a file that was read is `lines()` of the text, mapped and collected, with no adapter between that can drop a line which holds
+    an address (a filter may only test for emptiness / a comment marker); (b) the configuration parses every entry of that list into
+    BlacklistConfig.list: the loop over it covers the whole collection and pushes on every path that goes round again."""
+    lf = prog.bodies.get("humphrey_server::config::config::load_list_file")
+    chk.floor("load_list_file", 1 if lf else 0, 1)
+    if lf:
+        d = describe(prog, lf, 0)
+        alts = d[1] if d[0] == "multi" else [d]
+        n = 0
+        for a in alts:
+            if not (a[0] == "variant" and a[2] == "Ok"):
+                continue
+            v = a[3][0] if a[3] else None
+            if not desc_contains(v, lambda y: y[0] == "call" and core.re.search(LINES, y[1]) is not None):
+                continue
+            n += 1
+            bad = None
+            for c in core.desc_calls(v):
+                if core.re.search(PARTIAL, c[1]) or core.re.search(r"::(map_while|scan|flat_map|flatten|chain|peekable|next|nth)$", c[1]):
+                    if core.re.search(r"::filter$", c[1]) and len(c[2]) > 1 and _benign_filter(prog, c[2][1]):
+                        continue
+                    if core.re.search(r"::(flat_map|flatten|chain|peekable)$", c[1]):
+                        continue
+                    bad = c[1]
+            src = [c for c in core.desc_calls(v) if core.re.search(LINES, c[1])]
+            whole = all(not desc_contains(c[2][0], lambda y: y[0] == "call" and (core.re.search(PARTIAL, y[1]) or core.re.search(r"Index(Mut)?<[^>]*>>?::index(_mut)?$", y[1]))) for c in src)
+            chk.ob("R6.list_file", lf.path, "every line of the list file becomes an entry of the list (only blank / comment lines may be left out)", bad is None and whole,
+                   f"the lines pass through {core.short(bad)}" if bad else ("only part of the text is split into lines" if not whole else ""))
+        # a loop form (`for line in text.lines() { list.push(..) }`) is decided by the push-on-every-round rule below
+        for nb, t in lf.calls_to(r"Iterator>?::next$|Iterator::next$"):
+            recv = describe(prog, lf, t["args"][0])
+            if not desc_contains(recv, lambda y: y[0] == "call" and core.re.search(LINES, y[1]) is not None):
+                continue
+            n += 1
+            _push_every_round(chk, prog, lf, nb, recv, "every line of the list file becomes an entry of the list")
+        chk.floor("load_list_file: list built from the lines of the file", n, 1)
+    m = 0
+    for p, b in sorted(prog.bodies.items()):
+        if b.kind == "closure" or not p.startswith("humphrey_server::config::config::"):
+            continue
+        for nb, t in b.calls_to(r"Iterator>?::next$|Iterator::next$"):
+            recv = describe(prog, b, t["args"][0])
+            if not desc_contains(recv, lambda y: y[0] == "call" and y[1].endswith("config::load_list_file")):
+                continue
+            m += 1
+            _push_every_round(chk, prog, b, nb, recv, "every entry of the blacklist file is parsed into BlacklistConfig.list")
+        for blk, t in b.calls_to(r"Iterator>?::collect$|Iterator::collect$"):
+            recv = describe(prog, b, t["args"][0])
+            if not desc_contains(recv, lambda y: y[0] == "call" and y[1].endswith("config::load_list_file")):
+                continue
+            m += 1
+            chk.ob("R6.list_file", p, "every entry of the blacklist file is parsed into BlacklistConfig.list", whole_collection(recv), f"{panics.short_desc(recv)}", where=b.where(blk))
+    chk.floor("loops / chains over the loaded blacklist", m, 1)
+
+
+def _push_every_round(chk, prog, b, nb, recv, what):
+    ok_recv = whole_collection(recv)
+    edges = some_edge_of(prog, b, nb)
+    pushes = [blk for blk, _ in b.calls_to(r"Vec::<T, A>::push$|Vec::<T, A>::insert$|Vec::<T, A>::extend|Extend<[^>]*>>::extend$")]
+    w = None
+    for (sb, tgt) in edges:
+        w = w or core.must_pass(b, [tgt], [nb], through_nodes=pushes, after_from=False)
+    chk.ob("R6.list_file", b.path, what, ok_recv and bool(edges) and bool(pushes) and w is None,
+           "the loop can go round without adding the entry" if (w or not pushes) else f"the loop covers {panics.short_desc(recv)}", where=b.where(nb), path=w)
